@@ -16,7 +16,7 @@ import tempfile
 from concurrent.futures import ThreadPoolExecutor
 
 from . import absint, discipline, facts as factsmod, mir, taint, util, witness
-from .report import BrokenChecker
+from .report import BrokenChecker, Ctx
 
 VERIF = factsmod.VERIF
 
@@ -168,9 +168,39 @@ def sweeps(ctx, prop):
                     wl.add((imp["methods"][0]["def"], "writer::ShapeWriter::<T>::finalize"))
             sub = _Prefixed(ctx, rule, cfg)
             discipline.check(sub, F, rule, fns, whitelist=wl)
-    if prop in ("C07", "C17"):
-        # the same sinks in the geo configuration (conversions are not reader paths; this only has to stay quiet or known)
-        pass
+    if prop != "C20":
+        geo_sweep(ctx, prop)
+
+
+class _GeoCtx(Ctx):
+    """a context whose `default` facts are those of the crate built with the optional features: the property's own rules are
+    evaluated a second time on what that build compiles (cfg(feature) items included)"""
+
+    def facts(self, config="default"):
+        return Ctx.facts(self, "geo")
+
+
+def geo_sweep(ctx, prop):
+    import importlib
+    rule = prop + ".geo"
+    sub = _GeoCtx(prop, "quick")
+    sub.is_sub = True                   # no delegation inside: the delegated rules are swept under their own property
+    try:
+        importlib.import_module("sa.rules." + prop).run(sub)
+    except BrokenChecker:
+        raise
+    except Exception as e:
+        sub.unanalysable(prop + ".engine", "rule evaluation", "internal error while analysing the geo build: %r" % (e,))
+    own = set(o["rule"] for o in sub.obs)
+    n = len([o for o in ctx.obs if o["rule"] in own])          # what the default build gave for the same rules
+    ctx.rule(rule, "build-configuration sweep (thorough): every rule of %s evaluated again on the crate built with "
+                   "--features geo-types,geo-traits (what cfg(feature) adds to the functions the rules anchor in is analysed too); "
+                   "keys are those of the base rules, so a violation is suppressed or reported exactly as in the default build" % prop,
+             floor=max(1, n * 9 // 10))
+    ctx.units.update(sub.units)
+    for o in sub.obs:
+        ctx.ob(rule, "[geo] %s: %s" % (o["rule"], o["instance"]), o["ok"], o["why"], site=o["site"], key=o["key"],
+               trivial=o.get("trivial", False))
 
 
 class _Prefixed:
